@@ -124,6 +124,9 @@ def roundtrip_records(ck, m, record):
     """C09 hook: round-trip records for generated documents (non-canonical spellings)."""
     docs = simulate(ck, 'DocGenSim.cfg', 1500 if ck.tier == 'quick' else 30000)
     docs += exhaustive(ck, 'DocGenQ.cfg')
+    # the same simulation under the state constraint NormalForm (no spelling the renderer would not write itself): as the
+    # spelling ranges grow, an unconstrained document without any non-canonical spelling becomes rare
+    docs += simulate(ck, 'DocGenNFSim.cfg', 1500 if ck.tier == 'quick' else 30000)
     docs = dedupe(concretise(docs))
     out = []
     charref = re.compile(r'&(#[0-9]+|#[xX][0-9a-fA-F]+|[A-Za-z][A-Za-z0-9]*);')
